@@ -79,6 +79,25 @@ def generate(seed, tier="quick"):
                 arg = "[" + arg + "]"
             f["sites"][sid] = {"op": op, "place": prng_.choice(["direct", "func"]), "arg": arg, "prev": None}
             f["tests"].append({"name": f"test_p{n}", "param": params, "events": [{"t": "cmp", "eid": f"pe{n}", "site": sid, "var": "_p", "style": prng_.choice(["assert", "rec"])}]})
+    nrng = sub(seed, "nested")
+    nested = False
+    if nrng.random() < 0.2:
+        # a test that executes snapshots and then runs a nested in-process pytest session (pytester), in which inline-snapshot
+        # is active or disabled (flag / CI variable): the outer test's verdict must not depend on it
+        f = prog["files"][0]
+        cands = [t for t in f["tests"] if not t.get("param") and any(e.get("t") == "cmp" for e in t["events"])]
+        if cands:
+            t = nrng.choice(cands)
+            t["args"] = "pytester, monkeypatch"
+            how = nrng.choice(["disable", "ci", "active", "disable"])
+            lines = ["pytester.makepyfile(test_inner='def test_i():\\n    assert 1 == 1\\n')"]
+            if how == "ci":
+                lines.append("monkeypatch.setenv('CI', 'true')")
+            inner_flags = "'--inline-snapshot=disable', " if how == "disable" else ""
+            lines.append(f"pytester.runpytest_inprocess('-p', 'inline_snapshot.pytest_plugin', '-p', 'no:cacheprovider', {inner_flags}'-q')")
+            for ln in lines:
+                t["events"].append({"t": "stmt", "text": ln})
+            nested = True
     xrng = sub(seed, "xfail")
     for f in prog["files"]:
         for t in f["tests"]:
@@ -86,7 +105,7 @@ def generate(seed, tier="quick"):
                 t["xfail"] = True
         orng = sub(seed, "order")
         orng.shuffle(f["tests"])
-    return {"program": prog, "config": draw_config(sub(seed, "config")), "cold": sub(seed, "cold").random() < 0.04}
+    return {"program": prog, "config": draw_config(sub(seed, "config")), "cold": sub(seed, "cold").random() < 0.04 and not nested, "pytester": nested}
 
 
 def virtual_tests(prog):
@@ -133,7 +152,9 @@ def execute(case, ctx):
     events = [(fn, t["name"], e) for fn, t in vtests for e in t["events"]]
     xfail = {(f["name"], t["name"]) for f in prog["files"] for t in f["tests"] if t.get("xfail")}
     m = SessionModel(src, ops, approved).run([ev for ev in events if (ev[0], ev[1]) not in xfail], V.pyval)
-    spec = {"flags": cfg["flags"], "answers": cfg["answers"]}
+    spec = {"flags": cfg["flags"], "answers": cfg["answers"], "pytester": bool(case.get("pytester"))}
+    if case.get("pytester"):
+        ctx.count("probe_nested_inprocess_session")
     new, res = sim.run_session(ctx, "plugin", files, spec)
     if res.get("status") != "ok":
         out["discards"]["session-process-died"] = 1
